@@ -68,7 +68,9 @@ def programs(tier, pid):
         for p in ps:
             p["crash"] = True
             p["maxstates"] = 12000 if tier == "quick" else 150000
-            p["tear"] = [0, 1, 20, -2] if tier == "quick" else ([0, 1, 2, 3] + list(range(4, 240, 4)) + [-2, -3])
+            p["tear"] = [0, 1, 20, -2] if tier == "quick" else [0, 1, 2, 3, 8, 16, 24, 32, 48, 64, 80, 96, 112, 128, 160, -3, -2]
+            if tier != "quick" and p["name"] in ("Q4", "P4"):
+                p["tear"] = [0, 1, 20, -2]
             p["reps"] = 1 if tier == "quick" else 2
             names = [t["name"] for t in p["tasks"]]
             p["failsets"] = [[]] + [[n] for n in names]
@@ -101,7 +103,7 @@ def judge_cfg(invs):
     return "SPECIFICATION TSpec\nVIEW TView\nINVARIANTS Inv_EnvSync %s\nCHECK_DEADLOCK FALSE\n" % " ".join(invs)
 
 
-def judge(ctx, d, invs, workers=4, timeout=1500):
+def judge(ctx, d, invs, workers=4, timeout=2700):
     r = vlib.tlc(ctx, "SpokRunTrace", judge_cfg(invs), files=[("program.json", os.path.join(d, "program.json")),
                                                               ("graph.ndjson", os.path.join(d, "graph.ndjson"))],
                  workers=workers, timeout=timeout, heap="6g")
